@@ -74,7 +74,9 @@ type thread struct {
 type chanState struct {
 	id     int
 	closed bool
-	group  int // first group that touched it (-1 = none)
+	group  int   // first group that touched it (-1 = none)
+	cap    int   // 0 = rendezvous
+	buf    []any // buffered values (pointers to them), oldest first
 }
 
 // MutexState is the scheduler-side state of a vsync mutex.
@@ -235,10 +237,15 @@ func (s *Sched) opEnabled(t *thread) (bool, *thread) {
 	o := &t.pend
 	switch o.kind {
 	case opSend:
-		return o.ch.closed, nil // completes through the receiver's transition; wakes (to panic) if the channel gets closed
+		// unbuffered: completes through the receiver's transition; wakes (to panic) if the channel gets closed.
+		// buffered: enabled while there is room
+		return o.ch.closed || len(o.ch.buf) < o.ch.cap, nil
 	case opRecv:
-		if o.ch.closed {
+		if o.ch.closed || len(o.ch.buf) > 0 {
 			return true, nil
+		}
+		if o.ch.cap > 0 {
+			return false, nil // senders have room: they complete on their own transitions
 		}
 		// blocked senders are served in the order in which they blocked (as the Go runtime does)
 		var first *thread
@@ -381,6 +388,9 @@ func (s *Sched) stateKey() uint64 {
 		if st.closed {
 			h = mix(h, uint64(st.id)*31+1)
 		}
+		for _, v := range st.buf {
+			h = mix(h, uint64(st.id)*37+hashStr(fmt.Sprint(reflect.ValueOf(v).Elem().Interface())))
+		}
 	}
 	for _, m := range s.mutexes {
 		h = mix(h, uint64(m.id)*131+uint64(m.owner+2)*7+uint64(m.readers))
@@ -403,7 +413,9 @@ func (s *Sched) apply(tr transition) {
 			t.hist = mix(t.hist, hashStr(o.label))
 		}
 		if o.kind == opRecv {
-			if tr.partner != nil {
+			if len(o.ch.buf) > 0 {
+				t.hist = mix(t.hist, hashStr(fmt.Sprint(reflect.ValueOf(o.ch.buf[0]).Elem().Interface())))
+			} else if tr.partner != nil {
 				t.hist = mix(t.hist, hashStr(fmt.Sprint(reflect.ValueOf(tr.partner.pend.val).Elem().Interface())))
 				tr.partner.hist = mix(tr.partner.hist, 0xabc)
 			} else {
@@ -413,10 +425,31 @@ func (s *Sched) apply(tr transition) {
 	}
 	switch o.kind {
 	case opSend:
-		t.sendAborted = true
+		if o.ch.closed {
+			t.sendAborted = true
+		} else {
+			o.ch.buf = append(o.ch.buf, o.val)
+		}
 	case opRecv:
 		s.touch(t, o.ch)
-		if tr.partner != nil {
+		if len(o.ch.buf) > 0 {
+			t.recvVal, t.recvOK = o.ch.buf[0], true
+			o.ch.buf = append([]any(nil), o.ch.buf[1:]...)
+			// a sender that was blocked on the full buffer gets the freed slot at once, oldest first (as the Go runtime does)
+			var first *thread
+			for _, u := range s.threads {
+				if !u.done && u != t && u.pend.kind == opSend && u.pend.ch == o.ch && (first == nil || u.parkSeq < first.parkSeq) {
+					first = u
+				}
+			}
+			if first != nil && len(o.ch.buf) == o.ch.cap-1 && !o.ch.closed {
+				o.ch.buf = append(o.ch.buf, first.pend.val)
+				if s.keys {
+					first.hist = mix(first.hist, 0xabd)
+				}
+				first.pend = op{kind: opResume}
+			}
+		} else if tr.partner != nil {
 			t.recvVal, t.recvOK = tr.partner.pend.val, true
 			tr.partner.pend = op{kind: opResume}
 		} else {
@@ -581,7 +614,7 @@ func (s *Sched) chanOf(ch any) *chanState {
 		return c.(*chanState)
 	}
 	s.nextObj++
-	c := &chanState{id: s.nextObj, group: -1}
+	c := &chanState{id: s.nextObj, group: -1, cap: reflect.ValueOf(ch).Cap()}
 	s.chanStates = append(s.chanStates, c)
 	s.objs[p] = c
 	s.keep = append(s.keep, ch)
@@ -607,15 +640,12 @@ func Step(label string) {
 	}
 }
 
-// Send is ch <- v on an unbuffered channel.
+// Send is ch <- v (rendezvous on an unbuffered channel, enqueue on a buffered one).
 func Send[T any](ch chan<- T, v T) {
 	s := cur()
 	if s == nil {
 		ch <- v
 		return
-	}
-	if cap(ch) != 0 {
-		panic("sched: buffered channels are not modelled")
 	}
 	c := s.chanOf(ch)
 	if c.closed {
@@ -649,6 +679,15 @@ func Recv2[T any](ch <-chan T) (T, bool) {
 func Recv[T any](ch <-chan T) T {
 	v, _ := Recv2(ch)
 	return v
+}
+
+// Len is len(ch): the number of buffered values.
+func Len(ch any) int {
+	s := cur()
+	if s == nil {
+		return reflect.ValueOf(ch).Len()
+	}
+	return len(s.chanOf(ch).buf)
 }
 
 // Close is close(ch).
